@@ -447,7 +447,16 @@ def ep_operand(prog: Program) -> RuleResult:
     for c in concrete_classes(prog):
         if not prog.is_subclass(c.qual, cbv):
             continue
-        for f in {prog.lookup(c.qual, "_evaluate__")} | {prog.lookup(c.qual, m) for m in ("_build_operation_result_and_update_truth_value_", "_process_output_and_update_values_")}:
+        todo = [g for g in {prog.lookup(c.qual, "_evaluate__")} | {prog.lookup(c.qual, m) for m in ("_build_operation_result_and_update_truth_value_", "_process_output_and_update_values_")} if g is not None]
+        # a flag computed by a method of the node (OperationResult(..., self.m(value), self)) is judged where it is computed
+        for g in list(todo):
+            for call in [x for x in ast.walk(g.node) if isinstance(x, ast.Call) and isinstance(x.func, ast.Name) and x.func.id == "OperationResult" and len(x.args) >= 2]:
+                fl = call.args[1]
+                if isinstance(fl, ast.Call) and isinstance(fl.func, ast.Attribute) and isinstance(fl.func.value, ast.Name) and fl.func.value.id == g.params[0]:
+                    h = prog.lookup(c.qual, fl.func.attr)
+                    if h is not None and h not in todo:
+                        todo.append(h)
+        for f in todo:
             if f is None or f.qual in seen:
                 continue
             seen.add(f.qual)
@@ -455,17 +464,23 @@ def ep_operand(prog: Program) -> RuleResult:
             for n in cfg.nodes:
                 if n.stmt is None:
                     continue
-                for call in [x for part in cfg._own_parts(n) for x in ast.walk(part) if isinstance(x, ast.Call) and isinstance(x.func, ast.Name) and x.func.id == "OperationResult" and len(x.args) >= 2]:
-                    flag = call.args[1]
+                sites_ = [(x, x.args[1]) for part in cfg._own_parts(n) for x in ast.walk(part) if isinstance(x, ast.Call) and isinstance(x.func, ast.Name) and x.func.id == "OperationResult" and len(x.args) >= 2]
+                if isinstance(n.stmt, ast.Return) and n.stmt.value is not None and f.name not in ("_evaluate__", "_build_operation_result_and_update_truth_value_", "_process_output_and_update_values_") \
+                        and not any(isinstance(x, ast.Call) and isinstance(x.func, ast.Name) and x.func.id == "OperationResult" for x in ast.walk(n.stmt.value)):
+                    sites_.append((n.stmt.value, n.stmt.value))  # the helper's returned flag
+                for call, flag in sites_:
+                    if isinstance(flag, ast.Attribute) and isinstance(flag.value, ast.Name) and flag.value.id == f.params[0]:
+                        # node state written only in condition position: as an operand the node would report whatever an earlier use left there
+                        r.fail(f"{f.short}#sticky-flag", f"{f.module.relpath}:{call.lineno}", src(call)[:100],
+                               f"the result is flagged with {src(flag)}, state of the shared node that is only updated where the node stands as a condition: a node used as a "
+                               f"condition and then as an operand (f = x.flag; or_(f, f == False)) reaches the comparator with the stale flag and the row is dropped")
+                        continue
                     # expressions the flag is computed from (through one local)
                     exprs = [flag]
                     if isinstance(flag, ast.Name):
                         exprs += [st.value for st in walk_local(f.node) if isinstance(st, ast.Assign) and src(st.targets[0]) == flag.id]
                     value_truth = [e for e in exprs for x in ast.walk(e) if isinstance(x, ast.Call) and isinstance(x.func, ast.Name) and x.func.id == "bool"]
                     if not value_truth:
-                        continue
-                    if f.name == "_process_output_and_update_values_":
-                        r.ok(f"{f.short}#flag", f"{f.module.relpath}:{call.lineno}", src(flag), "a predicate's result *is* a truth value")
                         continue
                     # every assignment of a value-truth to the flag must be control-dependent on a condition-position test
                     ok = True
@@ -474,6 +489,26 @@ def ep_operand(prog: Program) -> RuleResult:
                         ok = ok and guarded
                     if not isinstance(flag, ast.Name):
                         ok = False
+                    # ... and conversely the test must recognise *every* condition position: the operands of all logical operators
+                    # (negation included) and the conditions root
+                    lo = prog.cls("symbolic.LogicalOperator").qual
+                    logical = [x for x in concrete_classes(prog) if prog.is_subclass(x.qual, lo)]
+                    for st in [m for m in cfg.nodes if isinstance(m.stmt, ast.Assign) and isinstance(flag, ast.Name) and src(m.stmt.targets[0]) == flag.id and "bool(" in src(m.stmt.value)]:
+                        tests = [t for t in cfg.nodes if t.kind == "test" and isinstance(t.stmt, ast.If) and t.true_succ is not None and cfg.dominates(t.true_succ, st.id) and "_parent_" in src(t.stmt.test)]
+                        covered = set()
+                        root_ok = False
+                        for t in tests:
+                            root_ok = root_ok or "_conditions_root_" in src(t.stmt.test)
+                            for cc in [x for x in ast.walk(t.stmt.test) if isinstance(x, ast.Call) and isinstance(x.func, ast.Name) and x.func.id == "isinstance" and len(x.args) == 2]:
+                                kinds = cc.args[1].elts if isinstance(cc.args[1], ast.Tuple) else [cc.args[1]]
+                                for k in kinds:
+                                    q = f.module.resolve(k)
+                                    covered |= {x.name for x in logical if q and prog.is_subclass(x.qual, q)}
+                        missing = sorted({x.name for x in logical} - covered)
+                        r.check(not missing and root_ok, f"{f.short}#condition-positions-complete", f"{f.module.relpath}:{st.lineno}", src(tests[0].stmt.test)[:100] if tests else "",
+                                f"all {len(logical)} logical operators and the conditions root count as condition positions",
+                                f"a bound value standing as the operand of {missing or 'the conditions root'} is never flagged false: not_(p) for an already bound predicate result p "
+                                f"always reports true-then-negated, so or_(p, not_(p)) loses every binding with p false")
                     r.check(ok, f"{f.short}#value-truth-as-flag", f"{f.module.relpath}:{call.lineno}", src(call)[:100],
                             "the value's truth decides the flag only where the node is a condition",
                             "the result is flagged false whenever the produced value is falsy, wherever the node stands: as an operand of a comparator (which keeps true operand "
@@ -522,6 +557,32 @@ def ep_universal(prog: Program) -> RuleResult:
                 for x in ast.walk(part):
                     if isinstance(x, ast.Call) and (is_child_eval(x, cond_roles) or (isinstance(x.func, ast.Attribute) and is_self_attr(x.func) and x.func.attr in evaluators)):
                         checking.add(i)
+        # a nested loop over the remaining candidates that checks the condition in every iteration counts as a check itself
+        # (no candidate left = nothing left to check)
+        changed = True
+        while changed:
+            changed = False
+            for n2 in cfg.nodes:
+                if n2.kind != "for" or n2.id == h.id or n2.id not in body or n2.id in checking:
+                    continue
+                inner = {m.id for m in cfg.nodes if n2.id in m.loops}
+                entries = [x for x in n2.succ if x in inner]
+                escapes = False
+                for s0 in entries:
+                    if s0 in checking:
+                        continue
+                    seen2, st2 = {s0}, [s0]
+                    while st2:
+                        k = st2.pop()
+                        for sx in cfg.nodes[k].succ:
+                            if sx == n2.id:
+                                escapes = True
+                            elif sx in inner and sx not in checking and sx not in seen2:
+                                seen2.add(sx)
+                                st2.append(sx)
+                if entries and not escapes:
+                    checking.add(n2.id)
+                    changed = True
         # a path loop head -> body -> loop head that avoids every checking node
         bad = None
         for s0 in [x for x in h.succ if x in body]:
@@ -552,8 +613,142 @@ def ep_universal(prog: Program) -> RuleResult:
     return r
 
 
+def ep_quant(prog: Program) -> RuleResult:
+    """Quantifiers answer per binding of the *free* variables and report falsity.
+    (a) every logical operator can emit a result flagged false: an enclosing else-if evaluates its other branch only for left
+        results flagged false, so an operator that stays silent when it fails loses the bindings its sibling would accept;
+    (b) the existential quantifier de-duplicates by the bindings of the free variables: a key built from the quantified expression
+        alone drops a second free binding that shares the witness, and repeats a free binding for every further witness."""
+    from ..model import walk_local
+    from ..astutil import site, call_name, is_self_attr
+
+    r = RuleResult("EP-QUANT", "quantifiers answer per binding of the free variables and report falsity", floor=5)
+    lo = prog.cls("symbolic.LogicalOperator").qual
+    for c in [x for x in concrete_classes(prog) if prog.is_subclass(x.qual, lo)]:
+        s_ = summary_of(prog, c)
+        flags = [(e.flag.flag if e.flag is not None else None) for e in s_.emissions]
+        can_false = any(fl != ("const", False) for fl in flags)
+        r.check(can_false, f"{c.name}#reports-falsity", c.loc, f"emission flags {[_flag_label(fl, s_) for fl in flags]}",
+                "some emission can be flagged false",
+                f"{c.name} only ever emits results flagged true: when it fails for a binding it is silent, and an enclosing else-if (or_ between conditions over the same "
+                f"variables) never evaluates its other branch for that binding")
+    ex = prog.cls("symbolic.Exists")
+    f = prog.lookup(ex.qual, "_evaluate__")
+    single = {}
+    for x in walk_local(f.node):
+        if isinstance(x, ast.Assign) and len(x.targets) == 1 and isinstance(x.targets[0], ast.Name):
+            single.setdefault(x.targets[0].id, []).append(x.value)
+    adds = [c_ for c_ in ast.walk(f.node) if isinstance(c_, ast.Call) and call_name(c_) == "add" and isinstance(c_.func, ast.Attribute) and isinstance(c_.func.value, ast.Name) and c_.args]
+    keyed = None
+    why = "no de-duplication key found"
+    for a_ in adds:
+        key = a_.args[0]
+        if isinstance(key, ast.Name) and len(single.get(key.id, [])) == 1:
+            key = single[key.id][0]
+        # ids the key ranges over: the iterable of the innermost comprehension, through one local
+        comps = [g for x in ast.walk(key) if isinstance(x, (ast.GeneratorExp, ast.ListComp)) for g in x.generators]
+        if not comps:
+            continue
+        ids = comps[0].iter
+        coll = filt = None
+        if isinstance(ids, ast.Name):
+            # the list built by an explicit loop: ids = []; for v in COLL: if FILTER: ids.append(...)
+            for lp in [x for x in walk_local(f.node) if isinstance(x, ast.For)]:
+                apps = [c_ for c_ in ast.walk(lp) if isinstance(c_, ast.Call) and call_name(c_) == "append" and isinstance(c_.func, ast.Attribute) and isinstance(c_.func.value, ast.Name) and c_.func.value.id == ids.id]
+                if apps:
+                    coll = lp.iter
+                    filt = [x.test for x in ast.walk(lp) if isinstance(x, ast.If) and any(a2 in list(ast.walk(x)) for a2 in apps)]
+            if coll is None and len(single.get(ids.id, [])) == 1:
+                ids = single[ids.id][0]
+        if coll is None:
+            srcs = [g for x in ast.walk(ids) if isinstance(x, (ast.GeneratorExp, ast.ListComp)) for g in x.generators]
+            if not srcs:
+                continue
+            coll, filt = srcs[0].iter, srcs[0].ifs
+        rooted_at_quantified = any(isinstance(x, ast.Attribute) and is_self_attr(x) and x.attr in ("variable", "left") for x in ast.walk(coll))
+        excludes_quantified = any(isinstance(x, ast.Attribute) and is_self_attr(x) and x.attr in ("variable", "left") for t in filt for x in ast.walk(t)) and \
+            any(isinstance(o, (ast.IsNot, ast.NotEq, ast.NotIn)) for t in filt for x in ast.walk(t) if isinstance(x, ast.Compare) for o in x.ops)
+        if rooted_at_quantified:
+            keyed, why = False, f"the key ranges over {src(coll)}: the variables of the quantified expression only"
+        elif not excludes_quantified:
+            keyed, why = False, f"the key ranges over {src(coll)} without excluding the quantified variable: one result per witness"
+        else:
+            keyed, why = True, f"key over {src(coll)} minus the quantified variable"
+    r.check(keyed is True, "Exists._evaluate__#keyed-by-free-variables", site(f), why, "one result per binding of the free variables",
+            f"{why}: exists(y, x.a == y.a) with x unbound drops a second x that matches the same y, and a bound x with two matching y is answered twice")
+    return r
+
+
+def ep_empty(prog: Program) -> RuleResult:
+    """Empty domains: a local that is None until the first iteration of a loop over child results assigns it must not be iterated,
+    indexed or measured after the loop without a test for None - with an empty domain the loop body never runs."""
+    from ..cfg import CFG
+    from ..model import walk_local
+    from ..astutil import site
+    from .c03 import eval_closure
+
+    r = RuleResult("EP-EMPTY", "evaluation code is defined for loops that run zero times (empty domains)", floor=1)
+    n_cand = 0
+    for f in sorted(eval_closure(prog), key=lambda x: x.qual):
+        if ".entity_query_language." not in f.qual:
+            continue
+        cfg = CFG(f.node)
+        none_init = {}
+        for n in cfg.nodes:
+            if isinstance(n.stmt, ast.Assign) and len(n.stmt.targets) == 1 and isinstance(n.stmt.targets[0], ast.Name) and isinstance(n.stmt.value, ast.Constant) and n.stmt.value.value is None and not n.loops:
+                none_init[n.stmt.targets[0].id] = n
+        for name, init in sorted(none_init.items()):
+            assigns = [n for n in cfg.nodes if n is not init and isinstance(n.stmt, (ast.Assign, ast.AugAssign)) and any(isinstance(t, ast.Name) and t.id == name for t in (n.stmt.targets if isinstance(n.stmt, ast.Assign) else [n.stmt.target]))]
+            if not assigns or not all(n.loops for n in assigns):
+                continue  # also assigned outside loops: not the "set by the first iteration" idiom
+            n_cand += 1
+            bad = None
+            for u in cfg.nodes:
+                if u.stmt is None or u.loops or u.id not in cfg.reachable(init.id) or u is init:
+                    continue
+                uses = []
+                for part in cfg._own_parts(u):
+                    for x in ast.walk(part):
+                        it = None
+                        if isinstance(x, (ast.ListComp, ast.SetComp, ast.DictComp, ast.GeneratorExp)):
+                            it = x.generators[0].iter
+                        elif isinstance(x, ast.Subscript):
+                            it = x.value
+                        elif isinstance(x, ast.Call) and isinstance(x.func, ast.Name) and x.func.id in ("len", "list", "sorted", "iter", "next", "tuple", "set") and x.args:
+                            it = x.args[0]
+                        elif isinstance(x, ast.YieldFrom):
+                            it = x.value
+                        elif isinstance(x, ast.Attribute):
+                            it = x.value
+                        if isinstance(it, ast.Name) and it.id == name:
+                            uses.append(x)
+                if isinstance(u.stmt, ast.For) and isinstance(u.stmt.iter, ast.Name) and u.stmt.iter.id == name:
+                    uses.append(u.stmt)
+                if not uses:
+                    continue
+                guarded = False
+                for t in cfg.nodes:
+                    if t.kind == "test" and isinstance(t.stmt, ast.If) and cfg.dominates(t.id, u.id) and t.id != u.id:
+                        tt = t.stmt.test
+                        names = {x.id for x in ast.walk(tt) if isinstance(x, ast.Name)}
+                        if name in names and (any(isinstance(x, ast.Constant) and x.value is None for x in ast.walk(tt)) or (isinstance(tt, ast.UnaryOp) and isinstance(tt.op, ast.Not)) or isinstance(tt, ast.Name)):
+                            # the use must lie on the side that excludes None: either branch may end in a jump
+                            body_jumps = bool(t.stmt.body) and isinstance(t.stmt.body[-1], (ast.Return, ast.Raise, ast.Continue, ast.Break))
+                            in_body = t.true_succ is not None and cfg.dominates(t.true_succ, u.id)
+                            guarded = guarded or body_jumps or in_body
+                if not guarded:
+                    bad = bad or (u, uses[0])
+            r.check(bad is None, f"{f.short}#{name}-none-when-loop-is-empty", site(f, init.stmt), f"{name} = None ... assigned in {sorted({a.lineno for a in assigns})}",
+                    "every use after the loop is guarded by a test for None",
+                    f"{name} is still None when the loop over child results runs zero times (an empty domain), and line {bad[0].lineno if bad else '?'} uses it as a collection "
+                    f"({src(bad[1])[:60] if bad else ''}): the evaluation raises TypeError instead of answering")
+    if n_cand == 0:
+        raise AnalysisError("EP-EMPTY: no set-by-the-first-iteration local found in the evaluation closure (ForAll's candidate set is the confirmed instance)")
+    return r
+
+
 def run(prog: Program, tier: str) -> List[RuleResult]:
     from .c03 import domain_cache
 
     _cache.clear()
-    return [ep_thread(prog), ep_neg(prog), ep_filter(prog), ep_operand(prog), domain_cache(prog), ep_universal(prog)]
+    return [ep_thread(prog), ep_neg(prog), ep_filter(prog), ep_operand(prog), domain_cache(prog), ep_universal(prog), ep_empty(prog), ep_quant(prog)]
